@@ -418,10 +418,28 @@ func finish(p *Property, tier string, seed int64, planned int, results []CaseRes
 		}
 		return results[i].Case < results[j].Case
 	})
+	judge := func(r CaseResult) {
+		for _, v := range r.Violations {
+			matched := false
+			for _, f := range ff.Findings {
+				if f.Property == p.ID && f.Rule == v.Rule && f.Sig == v.Sig {
+					known[f.Property+"|"+f.Rule+"|"+f.Sig+"|"+f.What]++
+					matched = true
+					break
+				}
+			}
+			if !matched {
+				unknown = append(unknown, vrec{v: v, c: r})
+			}
+		}
+	}
 	for _, r := range results {
 		if r.Err != "" {
 			problems = append(problems, fmt.Sprintf("case %d: %s", r.Case, firstLine(r.Err)))
 			os.WriteFile(filepath.Join(vd, "out", p.ID+"-"+tier, fmt.Sprintf("harness-error-c%d.txt", r.Case)), []byte(r.Err), 0o644)
+			// what the oracles had already established before the case died still stands (its
+			// counters and coverage are not used)
+			judge(r)
 			continue
 		}
 		if r.Done {
@@ -439,19 +457,7 @@ func finish(p *Property, tier string, seed int64, planned int, results []CaseRes
 		if r.Sample != nil && len(samples) < 3 {
 			samples = append(samples, r.Sample)
 		}
-		for _, v := range r.Violations {
-			matched := false
-			for _, f := range ff.Findings {
-				if f.Property == p.ID && f.Rule == v.Rule && f.Sig == v.Sig {
-					known[f.Property+"|"+f.Rule+"|"+f.Sig+"|"+f.What]++
-					matched = true
-					break
-				}
-			}
-			if !matched {
-				unknown = append(unknown, vrec{v: v, c: r})
-			}
-		}
+		judge(r)
 	}
 	// race reports attributed to mainchain code are violations; dependency races are listed only.
 	depRaces := 0
